@@ -363,6 +363,7 @@ func runHistory(ft fataler, f pools.Factory, ops []pools.Op, opt runOpt) result 
 						if got, sup := r.lookup(s); sup && got != held {
 							r.fail("reask-lost/store-fail", "alloc(%s) re-ask failed to persist and the pre-existing assignment %s was taken away (lookup=%q) although it was never released", s, held, got)
 						}
+						r.maybe[s] = r.epoch() // a re-ask renews the lease; whether this one did is resolved by observation
 					} else if got, sup := r.lookup(s); sup && got != "" {
 						r.fail("failed-alloc-live/store-fail", "alloc(%s) failed to persist but the pool still reports %q for it", s, got)
 					}
@@ -512,8 +513,8 @@ func runHistory(ft fataler, f pools.Factory, ops []pools.Op, opt runOpt) result 
 			}
 		case pools.OpSetAlloc, pools.OpRemoteSet:
 			v := r.pickVal(op)
-			if op.P%3 == 0 {
-				// a third of the record ops re-apply the identical record of a current holder (by construction)
+			if op.P%2 == 0 {
+				// half of the record ops re-apply the identical record of a current holder (by construction)
 				for i := range subs {
 					x := subs[(op.S+i)%len(subs)]
 					if hv, ok := r.has[x]; ok {
